@@ -7,7 +7,7 @@
    expected_diff = asserted - running - earlier (real_only for an assertion on a real posting,
    everything for one on a virtual posting). *)
 From LedgerV Require Import Base.Prelude Base.Round Model.Amount Model.Xact Model.Assert
-  Proofs.AmountProofs Proofs.XactProofs Proofs.AssertProofs.
+  Proofs.AmountProofs Proofs.XactProofs Proofs.AssertProofs Gen.SourceGuards.
 From Coq Require Import Qabs.
 Local Open Scope Q_scope.
 
@@ -82,3 +82,10 @@ Example assertion_examples :
   (exists p, resolve_assigned false (fun _ => 2%Z) false h [] (mk PVirtual 1 16) = Ok p) /\
   resolve_assigned false (fun _ => 2%Z) false h [] (mk PReal (5 # 2) (27 # 2)) = Err EAssertOff.
 Proof. cbn zeta. split; [eexists; vm_compute; reflexivity|]. split; [eexists; vm_compute; reflexivity|]. vm_compute. reflexivity. Qed.
+
+(* the tie to the source by translation: the lines of /repo/src this model transcribes (harness/translators/src_guards.py
+   lists them, with the function each is looked for in) are still there, in the same order, in the source as it is NOW -
+   coq/Gen/SourceGuards.v is regenerated on every run and names the guards that are false *)
+Theorem model_transcribes_current_source : forallb (fun b => b) src_guards_C09 = true.
+Proof. vm_compute. reflexivity. Qed.
+Print Assumptions model_transcribes_current_source.
